@@ -72,6 +72,19 @@ class Fold:
                 vs = [self.ev(a) for a in e.args]
                 if all(isinstance(v, int) for v in vs):
                     return tuple(range(*vs))
+            if isinstance(e.func, ast.Attribute) and e.func.attr == "get" \
+                    and 1 <= len(e.args) <= 2 and not e.keywords:
+                base = self.ev(e.func.value)
+                if isinstance(base, dict):
+                    k = self.ev(e.args[0])
+                    if k is UNK:
+                        return UNK
+                    try:
+                        if k in base:
+                            return base[k]
+                    except TypeError:
+                        return UNK
+                    return self.ev(e.args[1]) if len(e.args) == 2 else None
             key = norm(e)
             return self.env.get(key, UNK)
         if isinstance(e, (ast.ListComp, ast.GeneratorExp)):
@@ -166,6 +179,9 @@ class Fold:
         if isinstance(e, ast.UnaryOp) and isinstance(e.op, ast.USub):
             v = self.ev(e.operand)
             return -v if isinstance(v, int) else UNK
+        if isinstance(e, ast.UnaryOp) and isinstance(e.op, ast.Not):
+            v = self.ev(e.operand)
+            return UNK if v is UNK else (not v)
         return UNK
 
     def run(self, stmts) -> None:
@@ -342,6 +358,23 @@ def importer_tables(prog: Program) -> dict:
                           if isinstance(y, ast.If) for n in ast.walk(y.test)
                           if isinstance(n, ast.Constant)
                           and isinstance(n.value, int)})
+    # table form: the label indexes a literal dict (in the branch or at class
+    # level) instead of an if/elif chain
+    for n in ast.walk(br):
+        d = None
+        if isinstance(n, ast.Dict):
+            try:
+                d = const(n)
+            except Exception:
+                d = None
+        elif isinstance(n, ast.Attribute) and isinstance(
+                base_env.get(n.attr), dict):
+            d = base_env[n.attr]
+        if isinstance(d, dict) and d and all(
+                isinstance(k, int) and not isinstance(k, bool) for k in d):
+            cand_labels = sorted(set(cand_labels) | set(d))
+    if not ctor:
+        raise AnalysisError("importer: SquarePlanar(...) call vanished")
     for label in cand_labels:
         env = dict(base_env)
         env.update({"neighbors": neighbours(4), "id_atom_map[atom_idx]": "c",
@@ -369,6 +402,11 @@ def importer_tables(prog: Program) -> dict:
             p = f.ev(args[1] if len(args) > 1 else kw.get("parity"))
             if a is not UNK:
                 labels[label] = (a, p)
+    if not labels:
+        raise AnalysisError("importer: no SquarePlanar label could be read "
+                            "off the CHI_SQUAREPLANAR branch (neither an "
+                            "if/elif chain over the label nor a literal "
+                            "table indexed by it)")
     out["SquarePlanar"] = labels
     # tetrahedral tags ---------------------------------------------------------
     tags = {}
